@@ -19,6 +19,7 @@ import json
 import os
 
 from .. import fault_driver as fdv
+from .. import tlc
 
 LEVEL = "fault_enumeration"
 RULE = ("one evaluation = one injected run (scenario, I/O call index, errno | crash-before | torn write) "
@@ -231,6 +232,21 @@ def run(ctx):
     runs += http_cases(ctx, work)
     runs += cli_cases(ctx, work, per_scen)
     ctx.notes["scenarios"] = per_scen
+    # completeness of the enumeration itself: system calls seen by strace on the
+    # enumerated directories vs the interposer's call log (harness/strace_audit.py)
+    from .. import strace_audit as sa
+    from .. import cli_fault as cf
+    if sa.available():
+        names = ["v2p.sharded", "convert.file_to_sharded"] if ctx.quick else list(cf.SCENARIOS)
+        audits = [sa.audit(work, n) for n in names]
+        ctx.notes["interposer_audit_strace"] = [
+            {k: a[k] for k in ("scenario", "syscalls_on_roots", "interposer_calls")} for a in audits]
+        bad = [a for a in audits if a["uncovered"] or a["count_mismatch"]]
+        if bad:
+            raise tlc.MachineryError("I/O calls not seen by the interposer (enumeration incomplete): %s"
+                                     % json.dumps(bad)[:1500])
+    else:
+        ctx.notes["interposer_audit_strace"] = "strace not usable here (ptrace denied): audit skipped"
 
     cases = [c for c, _ in runs]
     verdicts = ctx.judge("Trace_FaultStore", cases, workers=8, chunk=2000, count_traces=True)
